@@ -152,6 +152,31 @@ func c19a(c *Ctx) {
 		c.Unk("NextToken/dispatch", c.W.FuncPos(fn), "cannot find the dispatch point after the comment loop")
 		return
 	}
+	// a position is written where the token is known: after white space and comments have been
+	// skipped. A position stored into NextToken's own token before the dispatch point (one
+	// LineNumber store hoisted in front of the comment loop) is the position of whatever came
+	// before the token
+	{
+		k := 0
+		instrs(fn, func(in ssa.Instruction) {
+			st, ok := in.(*ssa.Store)
+			if !ok {
+				return
+			}
+			base, t, f, ok := fieldAddrOf(st.Addr)
+			if !ok || !typeIs(t, "token", "Token") || !(strings.HasSuffix(f, "CharIndex") || strings.HasSuffix(f, "LineNumber")) {
+				return
+			}
+			if _, own := base.(*ssa.Alloc); !own {
+				return
+			}
+			if st.Block() == dispatch || dispatch.Dominates(st.Block()) {
+				return
+			}
+			k++
+			c.Bad(fmt.Sprintf("NextToken/position-before-dispatch/%s#%d", f, k), c.W.Pos(st.Pos()), "NextToken stores "+f+" before white space and comments are skipped: the token would carry the position of what precedes it (the line of a comment, say)")
+		})
+	}
 	// the value the dispatch compares
 	chT := ""
 	for _, in := range dispatch.Instrs {
@@ -545,6 +570,9 @@ func c19a(c *Ctx) {
 				}
 			}
 		}
+		// (one way out: the positions judged above are those of the one return; a second return
+		// would hand back a token whose fields nobody looked at)
+		c.Check(len(returnsOf(rst)) == 1, "readStringToken/one-return", c.W.FuncPos(rst), "readStringToken has one return", fmt.Sprintf("readStringToken has %d returns; the position clauses judge one: a token returned early (for an empty string, say) carries positions no rule has read", len(returnsOf(rst))))
 		c.Check(okStart, "readStringToken/positions", c.W.FuncPos(rst), "string token starts at the position before the opening quote", "readStringToken does not take (start byte, start char, line) from (prevCharNumber, prevUtf8CharNumber, lineNumber) at entry")
 		c.Check(okEnd, "readString/end-positions", c.W.FuncPos(rs), "end = (line, prevCharNumber, prevUtf8CharNumber) right after consuming the closing quote, in the fields of their kind", "the end position of a string token is wrong: "+why)
 		// called when the current character is the quote
